@@ -151,6 +151,12 @@ func (e *Enc) define(name string, t Term) Term {
 		sym = smtSym(fmt.Sprintf("%s!%d", name, e.nextID()))
 	}
 	e.declSet[name] = true
+	if strings.Contains(t.S, "(ite ") {
+		// keep quantifier patterns free of ite: introduce a constant constrained by an equation
+		e.decls = append(e.decls, fmt.Sprintf("(declare-fun %s () %s)", sym, t.Sort))
+		e.items = append(e.items, Item{Kind: itDefine, Text: fmt.Sprintf("(assert (= %s %s))", sym, t.S)})
+		return Term{sym, t.Sort}
+	}
 	e.items = append(e.items, Item{Kind: itDefine, Text: fmt.Sprintf("(define-fun %s () %s %s)", sym, t.Sort, t.S)})
 	return Term{sym, t.Sort}
 }
